@@ -18,14 +18,16 @@ static inline _Bool vstr_eq_lit(const vstr* s, const char* lit) { return s->n ==
 #include "spec.h"
 
 /* ---------- environment: C library number parsing as a ghost mathematical reading of the text (trusted contract) ---------- */
-struct g_txt_t { _Bool any, neg, huge; unsigned __int128 mag; size_t consumed; } g_txt;   /* strtol/strtoul(.., 0) */
+struct g_txt_t { _Bool any, neg, huge; unsigned __int128 mag; size_t consumed; } g_txt0, g_txt10;   /* readings of the text by strtol/strtoul with base 0 (C prefixes) and base 10 */
+#define g_txt (*g_txtp)
 struct g_dbl_t { _Bool any, erange; double value; size_t consumed; } g_dbl;               /* strtod */
 unsigned g_strto_calls;
 #define I128_2_63 (((unsigned __int128)1) << 63)
 #define I128_2_64 (((unsigned __int128)1) << 64)
 static long vs_strtol(const char* s, char** end, int base) {
   g_strto_calls = g_strto_calls + 1;
-  __CPROVER_assert(base == 0, "strtol called with base 0");
+  __CPROVER_assert(base == 0 || base == 10, "strtol called with base 0 or 10");
+  const struct g_txt_t* g_txtp = base == 10 ? &g_txt10 : &g_txt0;
   if (!g_txt.any) { *end = (char*)s; return 0; }
   *end = (char*)s + g_txt.consumed;
   if (g_txt.neg) {
@@ -38,7 +40,8 @@ static long vs_strtol(const char* s, char** end, int base) {
 }
 static unsigned long vs_strtoul(const char* s, char** end, int base) {
   g_strto_calls = g_strto_calls + 1;
-  __CPROVER_assert(base == 0, "strtoul called with base 0");
+  __CPROVER_assert(base == 0 || base == 10, "strtoul called with base 0 or 10");
+  const struct g_txt_t* g_txtp = base == 10 ? &g_txt10 : &g_txt0;
   if (!g_txt.any) { *end = (char*)s; return 0; }
   *end = (char*)s + g_txt.consumed;
   if (g_txt.huge || g_txt.mag >= I128_2_64) { verif_errno = ERANGE; return 0xffffffffffffffffUL; }
@@ -54,6 +57,8 @@ static double vs_strtod(const char* s, char** end) {
 }
 #define strtol vs_strtol
 #define strtoul vs_strtoul
+#define strtoll vs_strtol      /* LP64: long long and long are both 64 bit */
+#define strtoull vs_strtoul
 #define strtod vs_strtod
 /* exp2 of an integral argument 0..64 is exact */
 static double vs_exp2(double x) {
@@ -69,17 +74,20 @@ static double vs_exp2(double x) {
 #include "ss_contracts.h"
 
 /* ---------- spec helpers over the ghost text ---------- */
-#define TXT_NEXT(s) ((s)->d[g_txt.consumed])
+#define SPEC_TXT(t) ((NDT_FLAG(t, FIX) && NDT_FLAG(t, BCD)) ? &g_txt10 : &g_txt0)
+#define TXT_NEXT(t, s) ((s)->d[SPEC_TXT(t)->consumed])
 #define DBL_NEXT(s) ((s)->d[g_dbl.consumed])
 static inline _Bool spec_isnull(const NDT* t, const vstr* s) { return !NDT_FLAG(t, REQ) && (NDT_FLAG(t, IGN) || (s->n == 1 && s->d[0] == '-')); }
-static inline _Bool spec_int_wellformed(const vstr* s) { return g_txt.any && (TXT_NEXT(s) == 0 || TXT_NEXT(s) == '.'); }
+static inline _Bool spec_int_wellformed(const NDT* t, const vstr* s) { return SPEC_TXT(t)->any && (TXT_NEXT(t, s) == 0 || TXT_NEXT(t, s) == '.'); }
 static inline _Bool spec_int_in_width(const NDT* t) {
+  const struct g_txt_t* g_txtp = SPEC_TXT(t);
   if (g_txt.huge) return 0;
   unsigned __int128 lim = ((unsigned __int128)1) << t->m_bitCount;
   if (NDT_FLAG(t, SIG)) return g_txt.neg ? g_txt.mag <= lim / 2 : g_txt.mag < lim / 2;
   return g_txt.mag == 0 || (!g_txt.neg && g_txt.mag < lim);
 }
 static inline unsigned spec_int_enc(const NDT* t) {
+  const struct g_txt_t* g_txtp = SPEC_TXT(t);
   unsigned long m = (unsigned long)g_txt.mag;
   unsigned long v = g_txt.neg ? 0UL - m : m;
   return t->m_bitCount >= 32 ? (unsigned)v : (unsigned)(v & ((1UL << t->m_bitCount) - 1UL));
@@ -161,37 +169,65 @@ __CPROVER_ensures(WR_POST_FRAME(OLD_N, OLD_D))
 __CPROVER_ensures(WR_POST_BYTE(0, OLD_N, OLD_D)) __CPROVER_ensures(WR_POST_BYTE(1, OLD_N, OLD_D))
 __CPROVER_ensures(WR_POST_BYTE(2, OLD_N, OLD_D)) __CPROVER_ensures(WR_POST_BYTE(3, OLD_N, OLD_D));
 
-result_t NDT_parseInput(const NDT* self, const vstr* inputStr, unsigned int* parsedValue)
-__CPROVER_requires(__CPROVER_is_fresh(self, sizeof(*self)) && spec_ndt_valid(self) && self->m_bitCount >= 8)
-__CPROVER_requires(__CPROVER_is_fresh(inputStr, sizeof(*inputStr)) && vstr_valid(inputStr) && __CPROVER_is_fresh(parsedValue, sizeof(*parsedValue)))
-/* consistency of the ghost reading with the text: the parse end lies inside the text; a conversion consumes at least one character */
-__CPROVER_requires(g_txt.consumed <= inputStr->n && (g_txt.any ==> g_txt.consumed >= 1) && (g_txt.huge || g_txt.mag < (((unsigned __int128)1) << 100)))
-__CPROVER_requires(g_dbl.consumed <= inputStr->n && (g_dbl.any ==> g_dbl.consumed >= 1))
-__CPROVER_requires(g_dbl.erange ==> (g_dbl.value == HUGE_VAL || g_dbl.value == -HUGE_VAL || (g_dbl.value > -2.3e-308 && g_dbl.value < 2.3e-308)))
-__CPROVER_requires(g_strto_calls == 0)
-__CPROVER_assigns(*parsedValue, verif_errno, g_strto_calls)
+/* parseInput: pre/postconditions as macros (RET = result, OLDV = *parsedValue before the call) shared by the DFCC contract and the B2 harness */
+#if !defined(CASE_PI)
+#define PI_CASE 1
+#elif CASE_PI == 0
+#define PI_CASE (!NDT_FLAG(self, EXP) && self->m_divisor == 1)
+#elif CASE_PI == 1
+#define PI_CASE (!NDT_FLAG(self, EXP) && self->m_divisor > 1)
+#elif CASE_PI == 2
+#define PI_CASE (!NDT_FLAG(self, EXP) && self->m_divisor < 0)
+#else
+#define PI_CASE (NDT_FLAG(self, EXP))
+#endif
+#ifdef CASE_DIV
+#define PI_DIVCASE (self->m_divisor == (CASE_DIV))
+#else
+#define PI_DIVCASE 1
+#endif
+#define PI_PRE (spec_ndt_valid(self) && PI_CASE && PI_DIVCASE && vstr_valid(inputStr) \
+  /* consistency of the ghost reading with the text: the parse end lies inside the text; a conversion consumes at least one character */ \
+  && g_txt0.consumed <= inputStr->n && (g_txt0.any ==> g_txt0.consumed >= 1) && (g_txt0.huge || g_txt0.mag < (((unsigned __int128)1) << 100)) \
+  && g_txt10.consumed <= inputStr->n && (g_txt10.any ==> g_txt10.consumed >= 1) && (g_txt10.huge || g_txt10.mag < (((unsigned __int128)1) << 100)) \
+  && g_dbl.consumed <= inputStr->n && (g_dbl.any ==> g_dbl.consumed >= 1) \
+  && (g_dbl.erange ==> (g_dbl.value == HUGE_VAL || g_dbl.value == -HUGE_VAL || (g_dbl.value > -2.3e-308 && g_dbl.value < 2.3e-308))) \
+  && g_strto_calls == 0)
+#define PI_INT (!spec_isnull(self, inputStr) && !NDT_FLAG(self, EXP) && self->m_divisor == 1)
+#define PI_FIX (!spec_isnull(self, inputStr) && !NDT_FLAG(self, EXP) && self->m_divisor != 1)
+#define PI_DBL_OK (g_dbl.any && DBL_NEXT(inputStr) == 0 && !g_dbl.erange && __CPROVER_isfinited(g_dbl.value))
 /* null input */
-__CPROVER_ensures(spec_isnull(self, inputStr) ==> __CPROVER_return_value == RESULT_OK && *parsedValue == self->m_replacement)
-__CPROVER_ensures(!spec_isnull(self, inputStr) && inputStr->n == 0 ==> __CPROVER_return_value == RESULT_ERR_EOF)
+#define PI_POST_NULL(RET) (spec_isnull(self, inputStr) ==> (RET) == RESULT_OK && *parsedValue == self->m_replacement)
+#define PI_POST_EMPTY(RET) (!spec_isnull(self, inputStr) && inputStr->n == 0 ==> (RET) == RESULT_ERR_EOF)
 /* integer types (divisor 1): soundness - accepted only if well-formed, inside the width, inside min/max, and encoded exactly */
-__CPROVER_ensures(!spec_isnull(self, inputStr) && !NDT_FLAG(self, EXP) && self->m_divisor == 1 && __CPROVER_return_value == RESULT_OK ==>
-     spec_int_wellformed(inputStr) && spec_int_in_width(self) && *parsedValue == spec_int_enc(self) && spec_range(self, *parsedValue) == 0)
+#define PI_POST_INT_SOUND(RET) (PI_INT && (RET) == RESULT_OK ==> \
+     spec_int_wellformed(self, inputStr) && spec_int_in_width(self) && *parsedValue == spec_int_enc(self) && spec_range(self, *parsedValue) == 0)
 /* ... completeness and purity: a well-formed in-range text is accepted whatever errno held before the call */
-__CPROVER_ensures(!spec_isnull(self, inputStr) && inputStr->n > 0 && !NDT_FLAG(self, EXP) && self->m_divisor == 1 &&
-     spec_int_wellformed(inputStr) && spec_int_in_width(self) && spec_range(self, spec_int_enc(self)) == 0 ==> __CPROVER_return_value == RESULT_OK)
+#define PI_POST_INT_COMPLETE(RET) (PI_INT && inputStr->n > 0 && spec_int_wellformed(self, inputStr) && spec_int_in_width(self) && spec_range(self, spec_int_enc(self)) == 0 ==> (RET) == RESULT_OK)
 /* fixed-point types (divisor != 1): accepted only if the whole text is a finite number whose scaled, rounded value fits */
-__CPROVER_ensures(!spec_isnull(self, inputStr) && !NDT_FLAG(self, EXP) && self->m_divisor != 1 && __CPROVER_return_value == RESULT_OK ==>
-     g_dbl.any && DBL_NEXT(inputStr) == 0 && !g_dbl.erange && __CPROVER_isfinited(g_dbl.value) && spec_dbl_in_width(self, spec_scaled(self, g_dbl.value))
+#define PI_POST_FIX_SOUND(RET) (PI_FIX && (RET) == RESULT_OK ==> PI_DBL_OK && spec_dbl_in_width(self, spec_scaled(self, g_dbl.value)) \
      && *parsedValue == spec_dbl_enc(self, spec_scaled(self, g_dbl.value)) && spec_range(self, *parsedValue) == 0)
-__CPROVER_ensures(!spec_isnull(self, inputStr) && inputStr->n > 0 && !NDT_FLAG(self, EXP) && self->m_divisor != 1 &&
-     g_dbl.any && DBL_NEXT(inputStr) == 0 && !g_dbl.erange && __CPROVER_isfinited(g_dbl.value) && spec_dbl_in_width(self, spec_scaled(self, g_dbl.value))
-     && spec_range(self, spec_dbl_enc(self, spec_scaled(self, g_dbl.value))) == 0 ==> __CPROVER_return_value == RESULT_OK)
+#define PI_POST_FIX_COMPLETE(RET) (PI_FIX && inputStr->n > 0 && PI_DBL_OK && spec_dbl_in_width(self, spec_scaled(self, g_dbl.value)) \
+     && spec_range(self, spec_dbl_enc(self, spec_scaled(self, g_dbl.value))) == 0 ==> (RET) == RESULT_OK)
 /* IEEE 754 types: never NaN/infinity, never a partially parsed text */
-__CPROVER_ensures(!spec_isnull(self, inputStr) && NDT_FLAG(self, EXP) && __CPROVER_return_value == RESULT_OK ==>
+#define PI_POST_EXP_SOUND(RET) (!spec_isnull(self, inputStr) && NDT_FLAG(self, EXP) && (RET) == RESULT_OK ==> \
      g_dbl.any && DBL_NEXT(inputStr) == 0 && !g_dbl.erange && __CPROVER_isfinitef(spec_bits_to_float(*parsedValue)) && spec_range(self, *parsedValue) == 0)
 /* the C library is consulted at most once and an error never leaves a value behind */
-__CPROVER_ensures(g_strto_calls <= 1)
-__CPROVER_ensures(__CPROVER_return_value != RESULT_OK ==> *parsedValue == __CPROVER_old(*parsedValue));
+#define PI_POST_ONCE (g_strto_calls <= 1)
+#define PI_POST_ERRKEEP(RET, OLDV) ((RET) != RESULT_OK ==> *parsedValue == (OLDV))
+result_t NDT_parseInput(const NDT* self, const vstr* inputStr, unsigned int* parsedValue)
+__CPROVER_requires(__CPROVER_is_fresh(self, sizeof(*self)) && __CPROVER_is_fresh(inputStr, sizeof(*inputStr)) && __CPROVER_is_fresh(parsedValue, sizeof(*parsedValue)))
+__CPROVER_requires(PI_PRE)
+__CPROVER_assigns(*parsedValue, verif_errno, g_strto_calls)
+__CPROVER_ensures(PI_POST_NULL(__CPROVER_return_value))
+__CPROVER_ensures(PI_POST_EMPTY(__CPROVER_return_value))
+__CPROVER_ensures(PI_POST_INT_SOUND(__CPROVER_return_value))
+__CPROVER_ensures(PI_POST_INT_COMPLETE(__CPROVER_return_value))
+__CPROVER_ensures(PI_POST_FIX_SOUND(__CPROVER_return_value))
+__CPROVER_ensures(PI_POST_FIX_COMPLETE(__CPROVER_return_value))
+__CPROVER_ensures(PI_POST_EXP_SOUND(__CPROVER_return_value))
+__CPROVER_ensures(PI_POST_ONCE)
+__CPROVER_ensures(PI_POST_ERRKEEP(__CPROVER_return_value, __CPROVER_old(*parsedValue)));
 
 size_t NDT_calcPrecision(int divisor)
 __CPROVER_requires(1)
@@ -266,6 +302,32 @@ void h_parseInput(void) {
   NDT t; vstr s; unsigned v;
   g_strto_calls = 0;
   result_t r = NDT_parseInput(&t, &s, &v);
+  if (r == RESULT_OK) { CANARY("parsed"); if (t.m_divisor != 1) { CANARY("parsed fixed point"); } if (t.m_flags & EXP) { CANARY("parsed float"); } }
+  if (r == RESULT_ERR_OUT_OF_RANGE) { CANARY("out of range"); }
+  if (r == RESULT_ERR_INVALID_NUM) { CANARY("invalid"); }
+}
+/* B2 variant of the same contract: explicit harness locals make the counterexample readable and replayable */
+NDT nondet_NDT(void); vstr nondet_vstr(void); struct g_txt_t nondet_txt(void); struct g_dbl_t nondet_dbl(void); SymbolString nondet_SS(void);
+void h_parseInput_b2(void) {
+  NDT t = nondet_NDT(); vstr str = nondet_vstr(); unsigned v = nondet_uint(), v0;
+  const NDT* self = &t; const vstr* inputStr = &str; unsigned* parsedValue = &v;
+  struct g_txt_t txt = nondet_txt(), txt10 = nondet_txt(); struct g_dbl_t dbl = nondet_dbl(); int errno0 = nondet_int();
+  g_txt0 = txt; g_txt10 = txt10; g_dbl = dbl; verif_errno = errno0; g_strto_calls = 0;
+#ifdef CASE_DIV
+  t.m_divisor = (CASE_DIV);
+#endif
+  __CPROVER_assume(PI_PRE);
+  v0 = v;
+  result_t r = NDT_parseInput(self, inputStr, parsedValue);
+  __CPROVER_assert(PI_POST_NULL(r), "parseInput: null input gives the replacement value");
+  __CPROVER_assert(PI_POST_EMPTY(r), "parseInput: empty input is rejected");
+  __CPROVER_assert(PI_POST_INT_SOUND(r), "[C07] parseInput integer: accepted only if well-formed, within width and min/max, encoded exactly (no wrap/truncation)");
+  __CPROVER_assert(PI_POST_INT_COMPLETE(r), "[C07,C12] parseInput integer: well-formed in-range text accepted independent of errno left by earlier operations");
+  __CPROVER_assert(PI_POST_FIX_SOUND(r), "[C07] parseInput fixed point: accepted only for a finite, completely parsed number whose scaled value fits (no NaN/inf/wrap)");
+  __CPROVER_assert(PI_POST_FIX_COMPLETE(r), "[C07,C12] parseInput fixed point: in-range number accepted independent of errno left by earlier operations");
+  __CPROVER_assert(PI_POST_EXP_SOUND(r), "[C07] parseInput IEEE float: never NaN/infinity or partial text");
+  __CPROVER_assert(PI_POST_ONCE, "parseInput: C library consulted at most once");
+  __CPROVER_assert(PI_POST_ERRKEEP(r, v0), "parseInput: error leaves the output untouched");
   if (r == RESULT_OK) { CANARY("parsed"); if (t.m_divisor != 1) { CANARY("parsed fixed point"); } if (t.m_flags & EXP) { CANARY("parsed float"); } }
   if (r == RESULT_ERR_OUT_OF_RANGE) { CANARY("out of range"); }
   if (r == RESULT_ERR_INVALID_NUM) { CANARY("invalid"); }
